@@ -5,7 +5,7 @@ P=$1; T=$2; C=$3
 WT=$(mktemp -d /tmp/wt_XXXXXX); rmdir $WT
 git -C /repo worktree add -q $WT HEAD
 if [ -f "$C" ]; then git -C $WT apply "$C"; else (cd $WT && git revert --no-commit $C >/dev/null); fi
-VERIF_REPO=$WT ./check $P $T | tail -${4:-3} || true
+VERIF_EVIDENCE_DIR=/tmp/verif_scratch_evidence VERIF_REPLAY_DIR=/tmp/verif_scratch_replays VERIF_REPO=$WT ./check $P $T | tail -${4:-3} || true
 git -C /repo worktree remove --force $WT; git -C /repo worktree prune
 # restore VGen from the real tree
 work/bin/vextract /repo work/vgen_restore >/dev/null 2>&1 || true
